@@ -166,6 +166,40 @@ func runC10(script *Scenario, d C10Disturbance) (*c10Result, error) {
 	if err != nil {
 		return nil, err
 	}
+	// The workload side converges too: the scripted "widget" / "tpReady" steps stand for workload controllers, which would
+	// report status again on objects PKO had to re-create while repairing (a one-shot step before the repair is lost with
+	// the deleted object). Re-assert the last scripted state of every index and settle again, twice.
+	lastWidget, lastReady := map[int]int{}, map[int]bool{}
+	var widgetOrder, readyOrder []int
+	for _, st := range script.Steps {
+		switch st.Op {
+		case "widget":
+			if _, seen := lastWidget[st.I]; !seen {
+				widgetOrder = append(widgetOrder, st.I)
+			}
+			lastWidget[st.I] = st.J
+		case "tpReady":
+			if _, seen := lastReady[st.I]; !seen {
+				readyOrder = append(readyOrder, st.I)
+			}
+			lastReady[st.I] = st.On
+		}
+	}
+	for round := 0; round < 2 && ok; round++ {
+		for _, i := range widgetOrder {
+			if err := r.Exec(len(script.Steps), Step{Op: "widget", I: i, J: lastWidget[i]}); err != nil {
+				return nil, err
+			}
+		}
+		for _, i := range readyOrder {
+			if err := r.Exec(len(script.Steps), Step{Op: "tpReady", I: i, On: lastReady[i]}); err != nil {
+				return nil, err
+			}
+		}
+		if _, ok, err = r.Quiesce(); err != nil {
+			return nil, err
+		}
+	}
 	res.quiescent = ok
 	res.calls = global
 	n := 0
@@ -224,7 +258,21 @@ func checkC10(ref, got *c10Result) error {
 		return Violf("C10", "no-convergence", "after the disturbances stopped the controllers did not reach quiescence within the round bound (state still changing)")
 	}
 	if !kubesim.JSONEqual(mustNorm(ref.proj), mustNorm(got.proj)) {
-		return Violf("C10", "end-state-differs-from-undisturbed-run", "the end state differs from the undisturbed run: %s", firstDiff(ref.proj, got.proj))
+		// list every differing object (the first one in full)
+		var others []string
+		na, nb := mustNorm(ref.proj), mustNorm(got.proj)
+		for k := range na {
+			if !kubesim.JSONEqual(na[k], nb[k]) {
+				others = append(others, k)
+			}
+		}
+		for k := range nb {
+			if _, ok := na[k]; !ok {
+				others = append(others, k)
+			}
+		}
+		sort.Strings(others)
+		return Violf("C10", "end-state-differs-from-undisturbed-run", "the end state differs from the undisturbed run: %s (all differing objects: %v)", firstDiff(ref.proj, got.proj), others)
 	}
 	return nil
 }
